@@ -50,7 +50,9 @@ CLAIMED = {
     'C05': dict(
         technique='Lean 4 proof: vector-clock (happens-before) ghost state layered on the pc-machine model of the pipeline, ghost '
                   'invariant preserved by every step of every thread for every schedule, memory orderings taken from the source by '
-                  'a translator (Gen/Orderings.lean) + trace replay of real executions with an executable happens-before oracle',
+                  'a translator (Gen/Orderings.lean); the slot addressing (guard of RingBuffer::new, mask, index of get/get_mut) and the stage wiring of '
+                  'the DSL builder likewise regenerated from the source on every run (Gen/RingSlots.lean + Props/C05Gen.lean: index = sequence mod N for '
+                  'every accepted N; Gen/RingWiring.lean + Props/C13Gen.lean) + trace replay of real executions with an executable happens-before oracle',
         text='Single-producer pipelines, every ring size, stage/handler topology, batch list, spin and blocking wait, every '
              'schedule: c05_no_lap_reachable (producer writing w, any handler handling i: i < w < i+n, so w mod n != i mod n), '
              'c05_full_ring_blocks / c05_full_ring_blocks_run (while some last-stage cursor c has c+n < end, no step of any '
@@ -289,7 +291,8 @@ CLAIMED = {
         ref='DESIGN.md §7 C03'),
     'C04': dict(
         technique='Lean 4 proof: inductive invariants over all interleavings of a pc-machine model of the pipeline (one step per '
-                  'sync-facade operation) + slot/payload layer + trace replay of real executions under a deterministic scheduler '
+                  'sync-facade operation) + slot/payload layer; stage wiring and slot addressing of the models proved equal to definitions regenerated '
+                  'from the DSL builder and the ring buffer on every run (Props/C13Gen.lean, Props/C05Gen.lean) + trace replay of real executions under a deterministic scheduler '
                   '(random schedules and a bounded-preemption search) on the model and on executable property oracles',
         text='Single-producer pipelines (every ring size, stage/handler topology, batch list, spin and blocking wait, every '
              'schedule): c04_log_is_prefix (each handler has been handed exactly 1..m, once each, in order, m <= cursor), '
@@ -333,7 +336,8 @@ CLAIMED = {
         note='as C04; for the multi producer the no-lap statement is c05_multi_no_lap (C05)',
         ref='DESIGN.md §7 C13'),
     'C14': dict(
-        technique='Lean 4 proof: producer invariants (claims tile, cursor = published prefix) for every schedule + trace replay',
+        technique='Lean 4 proof: producer invariants (claims tile, cursor = published prefix) for every schedule; the gating list of the producer '
+                  '(= the last stage, Props/C13Gen.lean) and the bitmap (Gen/BitMap.lean) regenerated from the source on every run + trace replay',
         text='Single-producer sequencer, every configuration and schedule: c14_claims_tile (ranges returned by next partition '
              '[0, next_write) into consecutive ranges of the requested lengths), c14_cursor_monotone, c14_cursor_is_published_prefix, '
              'c14_cursor_eq_highest_claimed. Multi-producer sequencer, any number of writer threads, every interleaving of the '
